@@ -38,8 +38,9 @@ def prebuild():
 # --------------------------------------------------------------------------
 
 class Case:
-    def __init__(self, name, kind, cfg, anns, classes=()):
+    def __init__(self, name, kind, cfg, anns, classes=(), expect=None):
         self.name, self.kind, self.cfg, self.anns, self.classes = name, kind, list(cfg), list(anns), set(classes)
+        self.expect = expect      # path of a hand-written v3 XML file the nolibxml re-export must reproduce byte for byte
 
     def script(self, mode, ver, tmpdir, idx):
         m = mode if mode == "buffer" else "file:%s/x%d.xml" % (tmpdir, idx)
@@ -52,7 +53,7 @@ def corpus_cases(scratch=None):
     for n in sorted(os.listdir(d)) if os.path.isdir(d) else []:
         if not n.endswith(".case"):
             continue
-        cfg, anns = [], []
+        cfg, anns, expect = [], [], None
         for l in open(os.path.join(d, n)):
             l = l.rstrip("\n")
             if not l or l.startswith("#"):
@@ -63,8 +64,11 @@ def corpus_cases(scratch=None):
                 if scratch is None:
                     continue
                 l = l.replace(m.group(0), scratch.unpack(os.path.join(C.REPO, "tests/hwloc", m.group(1))))
+            if l.startswith("expect-reexport "):
+                expect = l.split(" ", 1)[1]
+                continue
             (anns if l.startswith("ann ") else cfg).append(l)
-        out.append(Case("corpus:" + n, "corpus", cfg, anns, ["corpus"]))
+        out.append(Case("corpus:" + n, "corpus", cfg, anns, ["corpus"], expect=expect))
     return out
 
 
@@ -106,18 +110,53 @@ def make_cases(run, scratch=None):
     return cases
 
 
+def io_snapshots():
+    """Linux snapshots that contain PCI devices (listing the tarballs takes < 1 s)."""
+    import subprocess
+    res = []
+    for tb in S.snapshots("linux"):
+        try:
+            out = subprocess.run(["tar", "tjf", tb], capture_output=True, timeout=60).stdout
+        except Exception:     # noqa
+            continue
+        if re.search(rb"sys/bus/pci/devices/.", out):
+            res.append(tb)
+    return res
+
+
 def snapshot_cases(run, scratch):
     rng = run.rng
-    lin = S.snapshots("linux")
-    lin = rng.sample(lin, min(3 if run.tier == "quick" else 25, len(lin)))
+    quick = run.tier == "quick"
     out = []
+    LIN = ["env HWLOC_COMPONENTS linux,stop", "env HWLOC_THISSYSTEM 0"]
+    # every snapshot with I/O, natively discovered, I/O kept (KEEP_ALL and KEEP_IMPORTANT): PCI / bridge / OS device attributes
+    # of real machines (32-bit PCI domains, link speeds, ...) only exist on this path
+    for tb in io_snapshots():
+        d = scratch.unpack(tb)
+        for iof, tag in (("filter all 0", "io-all"), ("filter io 3", "io-important")):
+            for r in range(1 if quick else 3):
+                anns, cl = (G.gen_annotations(rng, rich=0.5) if r else ([], set()))
+                cl.add("snapshot-io")
+                flags = rng.choice([0, 1, 9]) if r else 0
+                out.append(Case("linuxio:%s|%s|flags=%d|r%d" % (os.path.basename(tb), tag, flags, r), "linuxio",
+                                LIN + [iof, "flags %d" % flags, "src fsroot " + d], anns, cl))
+    lin = [tb for tb in S.snapshots("linux")]
+    lin = rng.sample(lin, min(3 if quick else 25, len(lin)))
     for tb in lin:
         d = scratch.unpack(tb)
         anns, cl = G.gen_annotations(rng, rich=0.5)
         cl.add("snapshot")
         flags = rng.choice([0, 1, 9])
         out.append(Case("linux:%s|flags=%d" % (os.path.basename(tb), flags), "linux",
-                        ["env HWLOC_COMPONENTS linux,stop", "env HWLOC_THISSYSTEM 0", "filter all 0", "flags %d" % flags, "src fsroot " + d], anns, cl))
+                        LIN + ["filter all 0", "flags %d" % flags, "src fsroot " + d], anns, cl))
+    x86 = S.snapshots("x86")
+    x86 = rng.sample(x86, min(2 if quick else len(x86), len(x86)))
+    for tb in x86:
+        d = scratch.unpack(tb)
+        anns, cl = G.gen_annotations(rng, rich=0.5)
+        cl.add("x86")
+        out.append(Case("x86:%s" % os.path.basename(tb), "x86",
+                        ["env HWLOC_COMPONENTS x86,stop", "env HWLOC_THISSYSTEM 0", "env HWLOC_FSROOT", "filter all 0", "flags 0", "src cpuid " + d], anns, cl))
     return out
 
 
@@ -691,8 +730,10 @@ def check(run, replay=None):
                 jobs.append((Case("replay", "replay", cfg, anns), (p.group(1), p.group(2)), "buffer" if mode == "buffer" else "file", ver))
             else:
                 cases = make_cases(run, scratch) + snapshot_cases(run, scratch)
-                for c in cases:
-                    if quick and c.kind != "corpus":
+                for ci, c in enumerate(cases):
+                    if quick and c.kind == "linuxio":
+                        jobs.append((c, PAIRINGS[ci % 4], "buffer" if ci % 3 else "file", "v3"))
+                    elif quick and c.kind != "corpus":
                         ps = rng.sample(PAIRINGS, 2)
                         if ("0", "0") not in ps and rng.random() < 0.5:
                             ps[0] = ("0", "0")
@@ -754,6 +795,22 @@ def check(run, replay=None):
                         c = Case(c.name + " (shrunk)", c.kind, c.cfg, small, c.classes)
                     run.violation("%s:%s" % (key, ptag), "%s [%s, export=%s import=%s, %s, %s]" % (what, c.name[:80], "libxml" if p[0] == "1" else "nolibxml", "libxml" if p[1] == "1" else "nolibxml", mode, ver),
                                   replay_text(c, p, mode, ver, what + "\n" + r.get("stderr", "")))
+                if c.expect and loaded and ver == "v3" and r["A"]:
+                    want = open(c.expect, "rb").read()
+                    nobj_file = len(re.findall(rb"<object ", want))
+                    nobj = int(kv(r["A"][0]).get("nobj", "0"))
+                    run.bump("corpus-xml-reexport-clause")
+                    if nobj != nobj_file:
+                        v.add("corpus-xml-objects-dropped", "loading %s gives %d objects, the file has %d <object> elements" % (os.path.basename(c.expect), nobj, nobj_file))
+                    if p[0] == "0" and r["X1"] and r["X1"].startswith("X1 rc=0"):
+                        got = hexbytes(kv(r["X1"])["hex"]).rstrip(b"\0")
+                        if got != want:
+                            lg, lw = got.split(b"\n"), want.split(b"\n")
+                            d = next(((x, y) for x, y in zip(lg, lw) if x != y), (b"<%d lines>" % len(lg), b"<%d lines>" % len(lw)))
+                            v.add("corpus-xml-reexport-differs", "re-export of %s is not the file: %r vs %r" % (os.path.basename(c.expect), d[0][:200], d[1][:200]))
+                    for key, what in v.items:
+                        if key.startswith("corpus-xml-"):
+                            run.violation("%s:%s%s" % (key, "L" if p[0] == "1" else "N", "L" if p[1] == "1" else "N"), "%s [%s]" % (what, c.name), replay_text(c, p, mode, ver, what))
                 if not v.items and loaded and r["endrt"]:
                     run.cov["traces_validated_against_impl"] += 1
                 if loaded and r["B"] and ver == "v3":
